@@ -22,7 +22,8 @@ RULE = ("Hypothesis draws a start state (history of 0-6 calls over 3 pids / 2 co
         "mismatch error of the same kind, pid unbound (if it was) in both, every referenced object "
         "intact in both. Non-trivial = start state already holds the content or the pid, or a "
         "non-default algorithm / non-canonical spelling; distinct key = (start-state shape, pid "
-        "bound?, content present?, validation form, canonical algorithm).")
+        "bound?, content present?, validation form, canonical algorithm)."
+        ' Validation forms include the true digest of the OTHER content of the case (often under the store algorithm, i.e. the cid of another object).')
 ASSUMPTIONS = ["size-only validation with a WRONG size is excluded: the stepwise route cannot express it "
                "(delete_if_invalid_object requires a checksum)"]
 PIDS = ["pa", "pb", "pc"]
